@@ -131,3 +131,53 @@ func VH_C15_uint64RoundTrip() bool {
 	ok := vAnd(c2 == c, vEqBytes(body, vConcat(o1, o2)))
 	return vAnd(ok, vAnd(vEqBytes(p1, o1), vEqBytes(p2, o2)))
 }
+
+// vTwoLive: two frames alive at once must not share state; the caller's vector (with spare
+// capacity, as a pooled or append-grown vector has) must be left exactly as it was.
+func vTwoLive[C comparable](mf muxFunc[C], df demuxFunc[C], c1, c2 C) bool {
+	p1, p2 := vBytes(2), vBytes(2)
+	q1 := vBytes(2)
+	o1, o2 := vClone(p1), vClone(p2)
+	iov := make(p2p.IOVec, 2, 5)
+	iov[0], iov[1] = p1, p2
+	f1 := mf(c1, iov)
+	f2 := mf(c2, p2p.IOVec{q1})
+	ok := vAnd(len(iov) == 2, vAnd(vEqBytes(iov[0], o1), vEqBytes(iov[1], o2)))
+	g1, b1, err1 := df(p2p.VecBytes(nil, f1))
+	g2, b2, err2 := df(p2p.VecBytes(nil, f2))
+	if err1 != nil || err2 != nil {
+		return false
+	}
+	ok = vAnd(ok, vAnd(g1 == c1, vEqBytes(b1, vConcat(o1, o2))))
+	return vAnd(ok, vAnd(g2 == c2, vEqBytes(b2, q1)))
+}
+
+// verif: cover=checked bounds="string framing: two frames for symbolic channels (0..2 bytes) alive at the same time each still decode to their own (channel, payload); the caller's iovec (len 2, cap 5) is untouched"
+func VH_C15_twoLiveFramesString() bool {
+	vCover("checked")
+	return vTwoLive[string](stringMuxFunc, stringDemuxFunc, string(vBytes(2)), string(vBytes(2)))
+}
+
+// verif: cover=checked bounds="varint framing: as twoLiveFramesString, any uint64 channels"
+func VH_C15_twoLiveFramesVarint() bool {
+	vCover("checked")
+	return vTwoLive[uint64](varintMuxFunc, varintDemuxFunc, vU64(), vU64())
+}
+
+// verif: cover=checked bounds="uint16 framing: as twoLiveFramesString, any channels"
+func VH_C15_twoLiveFramesFixed16() bool {
+	vCover("checked")
+	return vTwoLive[uint16](uint16MuxFunc, uint16DemuxFunc, vU16(), vU16())
+}
+
+// verif: cover=checked bounds="uint32 framing: as twoLiveFramesString"
+func VH_C15_twoLiveFramesFixed32() bool {
+	vCover("checked")
+	return vTwoLive[uint32](uint32MuxFunc, uint32DemuxFunc, vU32(), vU32())
+}
+
+// verif: cover=checked bounds="uint64 framing: as twoLiveFramesString"
+func VH_C15_twoLiveFramesFixed64() bool {
+	vCover("checked")
+	return vTwoLive[uint64](uint64MuxFunc, uint64DemuxFunc, vU64(), vU64())
+}
